@@ -364,6 +364,30 @@ pub fn c03(opts: &Opts, out: &mut Out) {
         }
         shapes.insert((2, "same-statement", bi));
     }
+    // MANY large aggregates in one batch (an implementation may budget a chunk by the total number of points or
+    // scalars rather than by members): every member is examined and answered
+    {
+        let t0 = std::time::Instant::now();
+        let shapes_big: Vec<(usize, usize)> = if opts.thorough { vec![(2, 64), (1, 128), (2, 256)] } else { vec![(2, 64), (1, 128)] };
+        for (nb, mb) in shapes_big {
+            let agg = make_valid(nb, mb, mb, 1, false, 0, &mut rng);
+            let agg_bad = make_invalid(&agg, 2);
+            for k in [210usize, 256, 300] {
+                let all_big: Vec<&Tmpl> = vec![&agg; k];
+                check_batch(out, "C03", &format!("many-large-aggregates m={}", mb), &all_big, k, k, VerifyAction::VerifyOnly);
+                check_batch(out, "C03", &format!("many-large-aggregates m={}", mb), &all_big, k, k, VerifyAction::RecoverAndVerify);
+                // an invalid one at every tenth position (whichever member a budget is crossed on)
+                let positions: Vec<usize> = if opts.thorough { (0..k).step_by(7).chain([k - 1, k - 2]).collect() } else { vec![0, k / 2, 4 * k / 5, k - 1] };
+                for pos in positions {
+                    let mut ms = all_big.clone();
+                    ms[pos] = &agg_bad;
+                    check_batch(out, "C03", &format!("many-large-aggregates m={} one-invalid@{}", mb, pos), &ms, k, k, VerifyAction::VerifyOnly);
+                }
+                shapes.insert((k, "many-large-aggregates", mb));
+            }
+        }
+        out.stat("many_large_aggregates_ms", t0.elapsed().as_millis() as usize);
+    }
     // one very large aggregate among many small members (an implementation may size its chunks by the largest
     // statement): every member is still examined and answered, wherever the large one stands
     {
